@@ -72,7 +72,11 @@ class KnownMultiplierStringType(per.KnownMultiplierStringType):
 
     def encode(self, data, encoder):
         if self.has_extension_marker:
-            encoder.append_bit(0)
+            if is_in_size_range(self.minimum, self.maximum, len(data)):
+                encoder.append_bit(0)
+            else:
+                raise NotImplementedError(
+                    'String size extension is not yet implemented.')
 
         if self.number_of_bits is None:
             return self.encode_unbound(data, encoder)
